@@ -6,8 +6,6 @@ open CTV CTV.Proto CTV.Model.ChainStore
 
 structure DState where
   s : State := State.init
-  /-- every value the store ever held under a key (the cache may only hold such values) -/
-  ever : List (Bytes × Bytes) := []
   /-- der ↦ hash as reported by the harness (SHA-256 is not modelled): must be a function -/
   hashes : List (Bytes × Bytes) := []
 
@@ -19,7 +17,22 @@ def takeHex : Nat → List String → Option (List Bytes × List String)
     | _, _ => none
   | _, [] => none
 
-def setKey (m : Map) (h v : Bytes) : Map := (h, v) :: m.filter (fun e => e.1 != h)
+/-- a lookup result as the harness saw it at the cache / storage interface: `-` (none), `err`, or `bytes/sha256(bytes)` -/
+def lookupTok (g : String) : Except Err Bytes × Bytes :=
+  if g = "err" ∨ g = "-" then (.error .storage, []) else
+  match g.splitOn "/" with
+  | [v, h] =>
+    match fromHex v, fromHex h with
+    | some v, some h => (.ok v, h)
+    | _, _ => (.error .storage, [])
+  | _ => (.error .storage, [])
+
+/-- is the observed (fault-free) lookup result one the model state allows? The model's cache never evicts (evictions
+and expiry of the real LRU are not observable), so a hit may come from it or the value from the store. -/
+def lookupAllowed (st : State) (h : Bytes) (raw : Except Err Bytes) : Bool :=
+  match raw with
+  | .ok v => st.store.lookup h == some v || st.cache.lookup h == some v
+  | .error _ => (st.store.lookup h).isNone
 
 def handle (d : DState) (line : String) : DState × String :=
   match tokens line with
@@ -39,7 +52,7 @@ where go : List String → DState × String
           else if d.hashes.any (fun e => e.2 = hash ∧ e.1 ≠ der) then (d, "hash-collision")
           else
             let d := { d with hashes := (der, hash) :: d.hashes }
-            match buildIndirect (fun _ => hash) pre cert chain, buildDirect pre cert chain with
+            match buildIndirectC Gen.indirectBuildChecksEncoding (fun _ => hash) pre cert chain, buildDirect pre cert chain with
             | some ix, some dx => (d, hexOrDash ix ++ " " ++ hexOrDash dx)
             | _, _ => (d, "encode-error")
         | _, _ => (d, "bad-op")
@@ -47,11 +60,7 @@ where go : List String → DState × String
     | _, _ => (d, "bad-op")
   | ["sadd", h, v, res] =>
     match fromHex h, fromHex v with
-    | some h, some v =>
-      if res = "ok" then
-        let s' := step d.s (.add h v)
-        ({ d with s := s', ever := (h, v) :: d.ever }, "ok")
-      else (d, "ok")
+    | some h, some v => if res = "ok" then ({ d with s := step d.s (.add h v) }, "ok") else (d, "ok")
     | _, _ => (d, "bad-op")
   | ["sfind", h, res] =>
     match fromHex h with
@@ -66,34 +75,34 @@ where go : List String → DState × String
     match fromHex h, fromHex v with
     | some h, some v =>
       if res = "err" then (d, "ok")
-      else if d.ever.contains (h, v) then ({ d with s := { d.s with cache := setKey d.s.cache h v } }, "ok")
-      else (d, "bad-cset: the store never held this value under this key")
+      else if cacheSetEnabled d.s h v then ({ d with s := step d.s (.cacheSet h v) }, "ok")
+      else (d, "bad-cset: not enabled (this pair was never handed to storage.Add nor held by the store)")
     | _, _ => (d, "bad-op")
   | ["cget", h, res] =>
     match fromHex h with
     | some h =>
       if res = "err" ∨ res = "miss" then (d, "ok")
       else match fromHex res with
-        | some v => (d, if d.ever.contains (h, v) then "ok" else "bad-cget: the store never held this value under this key")
+        | some v => (d, if d.s.known.contains (h, v) then "ok" else "bad-cget: this pair was never handed to storage.Add nor held by the store")
         | none => (d, "bad-op")
     | none => (d, "bad-op")
   | ["sdel", h] =>
     match fromHex h with
-    | some h => ({ d with s := { d.s with store := d.s.store.filter (fun e => e.1 != h) } }, "ok")
+    | some h => ({ d with s := step d.s (.delete h) }, "ok")
     | none => (d, "bad-op")
   | ["stamper", h, v] =>
     match fromHex h, fromHex v with
-    | some h, some v => ({ d with s := { d.s with store := setKey d.s.store h v }, ever := (h, v) :: d.ever }, "ok")
+    | some h, some v => ({ d with s := step d.s (.tamper h v) }, "ok")
     | _, _ => (d, "bad-op")
-  | ["serve", stored, gbh] =>
+  | ["serve", stored, gbh, flt] =>
     match fromHex stored with
     | some stored =>
-      let get : Bytes → Except Err Bytes :=
-        if gbh = "-" then fun _ => .error .unknownHash
-        else if gbh = "err" then fun _ => .error .storage
-        else match fromHex gbh with
-          | some v => fun _ => .ok v
-          | none => fun _ => .error .storage
+      let (raw, hv) := lookupTok gbh
+      let bad := match hashOfExtra stored with
+        | some h => flt = "f0" && gbh != "-" && !lookupAllowed d.s h raw
+        | none => false
+      if bad then (d, "bad-lookup: the model state does not allow this result") else
+      let get : Bytes → Except Err Bytes := fun h => verified Gen.getByHashVerifiesHash (fun _ => hv) h raw
       match fixLogLeaf get stored with
       | .ok x => (d, "200 " ++ hexOrDash x)
       | .error _ => (d, "5xx")
@@ -103,11 +112,10 @@ where go : List String → DState × String
     | some n =>
       match takeHex n rest with
       | some (stored, ";" :: _m :: gbhs) =>
-        let results : List (Except Err Bytes) := gbhs.map fun g =>
-          if g = "err" then .error .storage else
-          match fromHex g with
-          | some v => .ok v
-          | none => .error .storage
+        let wanted := stored.filterMap hashOfExtra
+        let results : List (Except Err Bytes) := (wanted.zip (gbhs.filter (· != ";") |>.filter (fun g => g != "f0" && g != "f1"))).map fun (h, g) =>
+          let (raw, hv) := lookupTok g
+          verified Gen.getByHashVerifiesHash (fun _ => hv) h raw
         match fixRange results stored with
         | .ok xs => (d, s!"200 {xs.length} " ++ joinSp (xs.map hexOrDash))
         | .error _ => (d, "5xx")
